@@ -242,6 +242,17 @@ func vRegisterPlugin(keys []string, nodes []string) *vPlugin {
 	return p
 }
 
+// relByKey: how many release announcements named this allocation key
+func (r *vRecorder) relByKey(key string) int {
+	n := 0
+	for _, rel := range r.released {
+		if rel.AllocationKey == key {
+			n++
+		}
+	}
+	return n
+}
+
 type vNodeIter struct{ nodes []*Node }
 
 func (it *vNodeIter) ForEachNode(f func(*Node) bool) {
